@@ -9,11 +9,13 @@ from sa.consteval import ConstEnv
 from props.c01 import ctor_fields, SSH2_SLOTS
 from props import _codec
 
-EXPL = ('Decides the clauses visible in code shape: (1) the writer and the parser of each message perform the same sequence of codec operations on the same fields (KEXINIT: cookie, ten name-lists, bool, uint32; '
-        'SSH-1 public key message: cookie, (uint32, mpint, mpint) x 2, three uint32); the DoS module\'s KEXINIT builder is a third sibling; (2) each primitive writer/reader pair uses the same struct format and length arithmetic; '
-        '(3) the multi-word integer reader composes words with an unsigned format and applies the sign once; (4) both packet builders compute padding by the same expression, which for every payload-length residue modulo the block size yields a '
-        'total length divisible by 8 with at least 4 padding bytes; the header constant equals the packed header size, the modulus equals the reader\'s block size and the reader\'s size check counts the same components; the SSH-1 CRC uses the reflected '
-        'CRC-32 polynomial with a 256-entry table. Value-level round trips (all integers, all name-lists, byte equality of re-encoding) are NOT claimed.')
+EXPL = ('Decides: (1) the writer and the parser of each message perform the same sequence of codec operations on the same fields (KEXINIT: cookie, ten name-lists, bool, uint32; '
+        'SSH-1 public key message: cookie, (uint32, mpint, mpint) x 2, three uint32), by interpreting parse / constructor / write on read tokens; the DoS module\'s KEXINIT builder is a third sibling; '
+        '(2) every primitive writer emits the RFC 4251 (SSH-1: protocol 1.5) encoding and every reader decodes it and consumes exactly its bytes, by interpreting the writer / reader with all helpers on boundary families '
+        '(all bytes, uint32 patterns, bytes / str strings with multi-byte UTF-8, name-lists, 1511 integers of both signs around +-2^k up to 8192 bits): this is the round trip ON THOSE FAMILIES, not for all values; '
+        '(3) both packet builders, interpreted for 54 payload lengths, emit packets whose total is a multiple of 8 with at least 4 (and minimal) padding bytes, consistent length fields and the payload intact, and agree with each other; '
+        'the reader\'s size check counts the same components (linear forms over the wire values) and consumes the whole packet; (4) the SSH-1 CRC uses the reflected CRC-32 polynomial with a 256-entry table. '
+        'Byte equality of re-encoding whole decoded messages for arbitrary field values is NOT claimed beyond the token-level agreement of (1).')
 
 PAIR = {'write': 'read', 'write_list': 'read_list', 'write_bool': 'read_bool', 'write_int': 'read_int', 'write_mpint1': 'read_mpint1', 'write_byte': 'read_byte', 'write_string': 'read_string', 'write_mpint2': 'read_mpint2'}
 
@@ -24,45 +26,6 @@ def write_seq(func, buf='wbuf'):
         if isinstance(st, ast.Expr) and isinstance(st.value, ast.Call) and isinstance(st.value.func, ast.Attribute) and unparse(st.value.func.value) == buf:
             c = st.value
             out.append((c.func.attr, c.args[0] if c.args else None, st))
-    return out
-
-
-def read_seq(func, buf='buf'):
-    out = []
-    for st in func.body:
-        if isinstance(st, ast.Assign) and isinstance(st.value, ast.Call) and isinstance(st.value.func, ast.Attribute) and unparse(st.value.func.value) == buf and isinstance(st.targets[0], ast.Name):
-            c = st.value
-            out.append((c.func.attr, st.targets[0].id, c.args[0] if c.args else None, st))
-    return out
-
-
-def _read_size(func, expr):
-    """k when expr is self.read(k) with constant k, directly or through a local assigned once from it."""
-    if isinstance(expr, ast.Name):
-        defs = [d for d in walk_no_nested(func) if isinstance(d, (ast.Assign, ast.AnnAssign)) and any(isinstance(t, ast.Name) and t.id == expr.id for t in (d.targets if isinstance(d, ast.Assign) else [d.target]))]
-        if len(defs) != 1 or defs[0].value is None:
-            return None
-        expr = defs[0].value
-    if isinstance(expr, ast.Call) and unparse(expr.func) == 'self.read' and expr.args and isinstance(expr.args[0], ast.Constant) and isinstance(expr.args[0].value, int):
-        return expr.args[0].value
-    return None
-
-
-def fmt_of(func, which='unpack'):
-    """Constant struct formats used in a function: [(format, call node)]"""
-    out = []
-    for n in walk_no_nested(func):
-        if isinstance(n, ast.Call) and unparse(n.func) in ('struct.unpack', 'struct.pack') and n.args and isinstance(n.args[0], ast.Constant):
-            out.append((n.args[0].value, n))
-        # int.from_bytes(self.read(k), 'big') / x.to_bytes(k, 'big'): the same codec as the unsigned big-endian struct format of k bytes
-        elif isinstance(n, ast.Call) and unparse(n.func) == 'int.from_bytes' and len(n.args) >= 2 and isinstance(n.args[1], ast.Constant) and n.args[1].value == 'big' \
-                and not any(k.arg == 'signed' and not (isinstance(k.value, ast.Constant) and k.value.value is False) for k in n.keywords) \
-                and _read_size(func, n.args[0]) is not None:
-            k = _read_size(func, n.args[0])
-            out.append(({1: 'B', 2: '>H', 4: '>I', 8: '>Q'}.get(k, 'from_bytes(%s)' % k), n))
-        elif isinstance(n, ast.Call) and isinstance(n.func, ast.Attribute) and n.func.attr == 'to_bytes' and len(n.args) >= 2 and isinstance(n.args[0], ast.Constant) and isinstance(n.args[1], ast.Constant) and n.args[1].value == 'big' \
-                and not any(k.arg == 'signed' and not (isinstance(k.value, ast.Constant) and k.value.value is False) for k in n.keywords):
-            out.append(({1: 'B', 2: '>H', 4: '>I', 8: '>Q'}.get(n.args[0].value, 'to_bytes(%s)' % n.args[0].value), n))
     return out
 
 
@@ -216,6 +179,9 @@ def run(repo, rep, tier):
                                                  (1, ({'packet_length': 1, 'padding_length': 1}, 0), ({'packet_length': 1}, -4), 'padding + payload (with its CRC)')):
         m = rmodel[proto]
         sizes = [x[0] for x in m['block_tests']]
+        if not sizes or not m['payload_reads']:
+            # nothing of the reader is visible in read_packet itself (e.g. it dispatches through a function-valued variable): cannot decide, not a violation
+            raise AnalysisError('reader model: no block-size test / payload read found on the SSH-%d path of read_packet (the reader is not expressed in read_packet or in helpers that can be substituted into it)' % proto)
         rep.check('framing', 'SSH-%d reader tests %s against its block size' % (proto, what), sizes == [want_size], m['block_tests'][0][2] if m['block_tests'] else rp,
                   'SSH-%d reader: the size tested against the block size is %s, expected %s' % (proto, sizes, want_size), stmt='SSH-%d block size test' % proto, sample={'rule': 'framing', 'proto': proto, 'tested': repr(sizes)})
         for lf, txt, node in m['block_tests']:
